@@ -223,7 +223,12 @@ fn ill_typed_stmt(d: &mut Dec, p: &GProg) -> (&'static str, String) {
             _ => None,
         })
         .collect();
-    let closed: [(&'static str, &'static str); 42] = [
+    let closed: [(&'static str, &'static str); 46] = [
+        // a closure checked against a function type whose result it does not produce
+        ("closure-result-unit", "let ill: (int32) -> unit = |q: int32| q + 1;"),
+        ("closure-result-unit-unannotated", "let ill: (int32) -> unit = |q| q + 1;"),
+        ("closure-result-type", "let ill: (int32) -> string = |q: int32| q + 1;"),
+        ("closure-result-unit-block", "let ill: () -> unit = || { let w = 1; w };"),
         // type annotations of locals name types that do not exist
         ("annot-unknown-closure-param", "let _ = |q: NoSuchType| 1;"),
         ("annot-unknown-closure-param-nested", "let _ = |q: (int32, Vec[NoSuchType])| 1;"),
